@@ -46,7 +46,7 @@ func idFor(c *vk.Ctx, i int) []byte {
 
 func main() {
 	c := vk.Init("C14")
-	c.Rule("TestReqID values: every single byte value except SOH (255), 40 decoys ('112=', '10=000', '35=A', '=', spaces, digits, NUL, high bytes, text resembling other fields), lengths up to 10000, random strings; each injected at every kind of position of a logged-on history (directly after logon, several in a row, between Heartbeats / application messages / rejected messages / local sends), both roles; plus real-time sessions (N=1) in which the session's own TestRequest is pending when the peer's TestRequests arrive. Oracle per TestRequest step: exactly one message emitted in that step (so before any later reply), MsgType 0, its 112 value (reference tokenizer) byte-equal to the ID. distinct = distinct (ID bytes, role, context); non-trivial = all")
+	c.Rule("TestReqID values: every single byte value except SOH (255), 40 decoys ('112=', '10=000', '35=A', '=', spaces, digits, NUL, high bytes, text resembling other fields), lengths up to 10000, random strings; each injected at every kind of position of a logged-on history (directly after logon, several in a row, between Heartbeats / application messages / rejected messages / local sends), both roles; plus real-time sessions (N=1) in which the session's own TestRequest is pending when the peer's TestRequests arrive; plus sessions on the full stack (scripted net.Conn, connection reader/writer) given identifiers of 1..70000 bytes incl. every length 4088..4104 and 8184..8200. Oracle per TestRequest step: exactly one message emitted in that step (so before any later reply), MsgType 0, its 112 value (reference tokenizer) byte-equal to the ID. distinct = distinct (ID bytes, role, context); non-trivial = all")
 	n := c.Pick(700, 12000)
 	vk.Parallel(n, runtime.NumCPU(), func(i int) {
 		r := c.Rand("c14", int64(i))
@@ -182,7 +182,85 @@ func main() {
 		}(i)
 	}
 	wg.Wait()
+	fullStack(c)
 	c.Finish()
+}
+
+// fullStack sends TestRequests through the whole stack (scripted net.Conn, the library's connection reader and writer,
+// handler, session): long identifiers around the sizes of I/O buffers, one at a time, and the reply is read from the
+// bytes the library wrote.
+func fullStack(c *vk.Ctx) {
+	lengths := []int{1, 50, 1000, 4000, 5000, 8192, 10000, 16384, 70000}
+	for d := -8; d <= 8; d++ {
+		lengths = append(lengths, 4096+d, 8192+d)
+	}
+	if c.Thorough() {
+		for d := -40; d <= 40; d++ {
+			lengths = append(lengths, 4096+d, 65536+d)
+		}
+	}
+	var wg sync.WaitGroup
+	for ri, role := range []rig.Role{rig.Acceptor, rig.Initiator} {
+		for part := 0; part < 4; part++ {
+			wg.Add(1)
+			go func(ri int, role rig.Role, part int) {
+				defer wg.Done()
+				f, err := rig.StartFull(rig.FullCfg{Role: role, HeartBtInt: 30, BufSize: []int{0, 1, 10, 10}[part], Notify: true, Label: fmt.Sprintf("c14-full-%d-%d", ri, part)})
+				if err != nil {
+					c.Inconclusive("rig: " + err.Error())
+					return
+				}
+				defer f.Shutdown()
+				var l *rig.Link
+				if role == rig.Acceptor {
+					if l, err = f.Connect("c14"); err != nil {
+						c.Inconclusive("connect: " + err.Error())
+						return
+					}
+				} else {
+					l = f.Links[0]
+				}
+				if !l.Logon(role, 30, 5*time.Second) {
+					c.Inconclusive("full-stack logon did not complete")
+					return
+				}
+				for k, n := range lengths {
+					if k%4 != part {
+						continue
+					}
+					r := c.Rand("c14-full", int64(n*10+ri))
+					id := make([]byte, n)
+					for j := range id {
+						id[j] = "abcdefghijklmnopqrstuvwxyz0123456789= "[r.Intn(38)]
+					}
+					fr0, _ := l.Frames()
+					before := len(fr0)
+					l.Conn.Feed(l.Peer.Msg("1", fixref.Field{Tag: rig.TTestReqID, Val: id}))
+					ok := l.WaitFrames(5*time.Second, func(fs []rig.Frame) bool { return len(fs) > before })
+					time.Sleep(5 * time.Millisecond)
+					fr, _ := l.Frames()
+					c.Eval(vk.Hash64(id, []byte(role.String()), []byte("full-stack")), true)
+					c.SetAdd("full_stack_id_lengths", fmt.Sprint(n))
+					c.Count("full_stack_testrequests", 1)
+					replay := map[string]interface{}{"id_length": n, "role": role.String(), "seed": c.Seed, "stack": "scripted net.Conn"}
+					closed, _ := l.Conn.Closed()
+					if !ok || len(fr) != before+1 || fr[before].Type != "0" {
+						var t []string
+						for _, x := range fr[before:] {
+							t = append(t, x.Type)
+						}
+						c.Violate("C14/full-stack/not-exactly-one-heartbeat", fmt.Sprintf("%s: a TestRequest whose TestReqID is %d bytes long, sent over the connection, was answered with %v (connection closed by the library: %v)", role, n, t, closed), replay)
+						return
+					}
+					if got, has := fixref.Get(fr[before].Fields, rig.TTestReqID); !has || !bytes.Equal(got, id) {
+						c.Violate("C14/full-stack/testreqid-not-echoed", fmt.Sprintf("%s: TestReqID of %d bytes came back as %d bytes", role, n, len(got)), replay)
+						return
+					}
+				}
+			}(ri, role, part)
+		}
+	}
+	wg.Wait()
 }
 
 func max(a, b int) int {
